@@ -1,7 +1,7 @@
 //! The account link of an exchange — conformance driver for spec/AccountLink.tla (C12, C14, C07, C04).
 //!
 //! `acctlink run    --scenarios f.ndjson --out trace.ndjson`   executes scenarios (TLC-generated or replayed)
-//! `acctlink random --seed S --n N --out trace.ndjson --scn-out scn.ndjson`   seeded random scenarios (longer
+//! `acctlink random --seed S --n N [--mock M] --out trace.ndjson --scn-out scn.ndjson`   seeded random scenarios (longer
 //!     scripts, more updates and requests than the bounded model), written to --scn-out as scenarios
 //!
 //! scenario = {"x": "kraken"|"binance_spot"   the exchange whose link is built,
@@ -27,6 +27,16 @@
 //! The driver consumes the merged stream, stamping every item with the virtual instant, hands the scripted
 //! requests to the manager at `born + at` (whatever the link is doing), and when nothing has happened for a long
 //! virtual time logs `Stop quiet`, sends Shutdown (`Shutdown`) and expects the stream to end (`Ended`).
+//! OVERRUN family (`random --mock M`, scenario field "mock"): the REAL `MockExecution` client and a REAL `MockExchange`
+//! task (wired as ExecutionBuilder::add_mock does, but with a SMALL notification capacity) behind the real
+//! `ExecutionManager::init`, through a delegating client that only logs the two calls, stamps the exchange's snapshot
+//! with the attempt number and stops answering once the plan is worked off.  Per connection the driver publishes
+//! account notifications on the exchange's broadcast channel and consumes them; then a burst that fits the capacity
+//! while the merged stream is NOT polled (all delivered late, in order); then a burst LARGER than the capacity while it
+//! is not polled: the subscription lags.  In AccountLink's terms the connection ENDS there: its script body is what was
+//! published before the overrun (instants as actually played, so the `Reset` line is assembled after the run), the
+//! overrun notifications belong to no connection and must never appear; one notice, then the next connection's
+//! snapshot first.
 //! One NDJSON line per observation; all lines have the same fields.  `Trace_AccountLink.tla` is the oracle.
 //! The name tables in the `Reset` line are read off the implementation's IndexedInstruments (not off the
 //! ExecutionInstrumentMap the manager uses).
@@ -35,7 +45,11 @@ use barter_data::streams::reconnect::stream::ReconnectionBackoffPolicy;
 use barter_execution::{
     AccountEventKind, InstrumentAccountSnapshot, UnindexedAccountEvent, UnindexedAccountSnapshot,
     balance::{AssetBalance, Balance},
-    client::ExecutionClient,
+    client::{
+        ExecutionClient,
+        mock::{MockExecution, MockExecutionClientConfig, MockExecutionConfig},
+    },
+    exchange::mock::MockExchange,
     error::{ConnectivityError, OrderError, UnindexedClientError, UnindexedOrderError},
     indexer::AccountEventIndexer,
     map::generate_execution_instrument_map,
@@ -56,7 +70,7 @@ use barter_instrument::{
 };
 use barter_integration::{channel::mpsc_unbounded, snapshot::Snapshot};
 use chrono::{DateTime, Utc};
-use futures::{FutureExt, StreamExt};
+use futures::{FutureExt, StreamExt, stream::BoxStream};
 use rand::Rng;
 use serde_json::{Value, json};
 use std::{
@@ -140,8 +154,29 @@ struct Req {
     d: Option<u64>,
 }
 
+/// One connection of the overrun family: notifications consumed one by one (`pre`, each `g` ms after the previous),
+/// a burst that fits the capacity (`fit`, published together while the consumer is busy), then `over` notifications
+/// (more than the capacity) while the consumer is busy.
+#[derive(Clone, Debug)]
+struct MockConn {
+    pre: Vec<(u64, Elem)>,
+    fit: Vec<Elem>,
+    fit_gap: u64,
+    over: usize,
+    over_gap: u64,
+}
+
+#[derive(Clone, Debug)]
+struct MockPlan {
+    cap: usize,
+    lat: u64,
+    busy: u64,
+    conns: Vec<MockConn>,
+}
+
 #[derive(Clone, Debug)]
 struct Scenario {
+    mock: Option<MockPlan>,
     x: String,
     cc: String,
     pol: (u64, u8, u64),
@@ -155,8 +190,47 @@ fn arr<'a>(v: &'a Value, k: &str) -> &'a [Value] {
     v.get(k).and_then(|x| x.as_array()).map(|a| a.as_slice()).unwrap_or(&[])
 }
 
+fn elem_of(e: &Value) -> Elem {
+    Elem {
+        k: s(e, "k").to_string(),
+        nm: s(e, "nm").to_string(),
+        xok: b(e, "xok"),
+        early: e.get("early").and_then(|x| x.as_bool()).unwrap_or(false),
+        d: e.get("d").and_then(|x| x.as_u64()).unwrap_or(0),
+        v: i(e, "v"),
+    }
+}
+
+fn elem_json(e: &Elem) -> Value {
+    json!({"k": e.k, "nm": e.nm, "xok": e.xok, "early": e.early, "d": e.d, "v": e.v})
+}
+
+fn mock_of(m: &Value) -> MockPlan {
+    MockPlan {
+        cap: i(m, "cap") as usize,
+        lat: i(m, "lat") as u64,
+        busy: i(m, "busy") as u64,
+        conns: arr(m, "conns").iter().map(|c| MockConn {
+            pre: arr(c, "pre").iter().map(|e| (i(e, "g") as u64, elem_of(e))).collect(),
+            fit: arr(c, "fit").iter().map(elem_of).collect(),
+            fit_gap: i(c, "fit_gap") as u64,
+            over: i(c, "over") as usize,
+            over_gap: i(c, "over_gap") as u64,
+        }).collect(),
+    }
+}
+
+fn mock_json(m: &MockPlan) -> Value {
+    json!({"cap": m.cap, "lat": m.lat, "busy": m.busy, "conns": m.conns.iter().map(|c| json!({
+        "pre": c.pre.iter().map(|(g, e)| { let mut j = elem_json(e); j["g"] = Value::from(*g); j }).collect::<Vec<_>>(),
+        "fit": c.fit.iter().map(elem_json).collect::<Vec<_>>(),
+        "fit_gap": c.fit_gap, "over": c.over, "over_gap": c.over_gap,
+    })).collect::<Vec<_>>()})
+}
+
 fn scenario_of(v: &Value) -> Scenario {
     Scenario {
+        mock: v.get("mock").filter(|m| m.is_object()).map(mock_of),
         x: s(v, "x").to_string(),
         cc: s(v, "cc").to_string(),
         pol: (i(&v["pol"], "b0") as u64, i(&v["pol"], "mult") as u8, i(&v["pol"], "max") as u64),
@@ -166,25 +240,26 @@ fn scenario_of(v: &Value) -> Scenario {
             ls: i(o, "ls") as u64,
             ln: i(o, "ln") as u64,
             ed: i(o, "ed") as u64,
-            body: arr(o, "body").iter().map(|e| Elem {
-                k: s(e, "k").to_string(),
-                nm: s(e, "nm").to_string(),
-                xok: b(e, "xok"),
-                early: b(e, "early"),
-                d: i(e, "d") as u64,
-                v: i(e, "v"),
-            }).collect(),
+            body: arr(o, "body").iter().map(elem_of).collect(),
         }).collect(),
         reqs: arr(v, "reqs").iter().map(|r| Req { at: i(r, "at") as u64, d: (i(r, "d") >= 0).then(|| i(r, "d") as u64) }).collect(),
     }
 }
 
 fn scenario_json(scn: &Scenario) -> Value {
+    let mut j = scenario_json_base(scn);
+    if let Some(m) = &scn.mock {
+        j["mock"] = mock_json(m);
+    }
+    j
+}
+
+fn scenario_json_base(scn: &Scenario) -> Value {
     json!({
         "x": scn.x, "cc": scn.cc, "pol": {"b0": scn.pol.0, "mult": scn.pol.1, "max": scn.pol.2}, "T": scn.t,
         "script": scn.script.iter().map(|o| json!({
             "r": o.r, "ls": o.ls, "ln": o.ln, "ed": o.ed,
-            "body": o.body.iter().map(|e| json!({"k": e.k, "nm": e.nm, "xok": e.xok, "early": e.early, "d": e.d, "v": e.v})).collect::<Vec<_>>(),
+            "body": o.body.iter().map(elem_json).collect::<Vec<_>>(),
         })).collect::<Vec<_>>(),
         "reqs": scn.reqs.iter().map(|r| json!({"at": r.at, "d": r.d.map(|x| x as i64).unwrap_or(-1)})).collect::<Vec<_>>(),
     })
@@ -333,6 +408,10 @@ struct Stats {
     anomalies: usize,
     by_client: BTreeMap<String, usize>,
     by_exchange: BTreeMap<String, usize>,
+    mock_scenarios: usize,
+    mock_overruns: usize,
+    mock_fit_bursts: usize,
+    mock_lost_published: usize,
 }
 
 struct Shared {
@@ -351,6 +430,8 @@ struct Shared {
     /// what the link is doing, as the exchange sees it (evidence only)
     doing: &'static str,
     log: Vec<Value>,
+    /// overrun family: per attempt (call latency of account_stream, of account_snapshot, instant the snapshot call returned)
+    played: Vec<(u64, u64, u64)>,
 }
 
 impl Shared {
@@ -627,6 +708,9 @@ impl<K: Konst> ExecutionClient for Client<K> {
 // one scenario against the real ExecutionManager::init + run
 // ------------------------------------------------------------------------------------------------
 async fn run_scenario(scn: &Scenario, out: &mut Out, st: &mut Stats) {
+    if scn.mock.is_some() {
+        return run_mock(scn, out, st).await;
+    }
     match scn.cc.as_str() {
         "mock" => run_with::<KMock>(scn, out, st).await,
         "kraken" => run_with::<KKraken>(scn, out, st).await,
@@ -663,6 +747,7 @@ async fn run_with<K: Konst>(scn: &Scenario, out: &mut Out, st: &mut Stats) {
         feeders: vec![],
         doing: "initialising",
         log: vec![],
+        played: vec![],
     }));
     {
         let mut reset = scenario_json(scn);
@@ -827,6 +912,349 @@ async fn run_with<K: Konst>(scn: &Scenario, out: &mut Out, st: &mut Stats) {
 }
 
 // ------------------------------------------------------------------------------------------------
+// the overrun family: the REAL MockExecution client + MockExchange task behind the real ExecutionManager::init
+// ------------------------------------------------------------------------------------------------
+type Clock = fn() -> DateTime<Utc>;
+
+fn mock_clock() -> DateTime<Utc> {
+    time(1)
+}
+
+/// virtual ms without an item after which the driver stops draining the merged stream
+const DRAIN_MS: u64 = 1_000;
+
+/// Delegates to the real `MockExecution`; logs the two calls, stamps the exchange's snapshot with the attempt number
+/// and stops answering once the plan's connections are worked off.
+#[derive(Clone)]
+struct LoggedMock {
+    sh: Sh,
+    inner: MockExecution<Clock>,
+}
+
+impl ExecutionClient for LoggedMock {
+    const EXCHANGE: ExchangeId = ExchangeId::Mock;
+    type Config = ();
+    type AccountStream = BoxStream<'static, UnindexedAccountEvent>;
+
+    fn new(_: Self::Config) -> Self {
+        unimplemented!("built by the driver")
+    }
+
+    async fn account_stream(
+        &self,
+        assets: &[AssetNameExchange],
+        instruments: &[InstrumentNameExchange],
+    ) -> Result<Self::AccountStream, UnindexedClientError> {
+        let (planned, called) = {
+            let mut g = self.sh.lock().unwrap();
+            let o = g.begin(true);
+            g.line("Subscribe");
+            g.sub_done = true;
+            g.doing = if o.is_some() { "initialising" } else { "pending" };
+            (o.is_some(), g.now())
+        };
+        if !planned {
+            return std::future::pending().await;
+        }
+        let stream = self.inner.account_stream(assets, instruments).await;
+        let mut g = self.sh.lock().unwrap();
+        let ls = g.now() - called;
+        g.played.push((ls, 0, 0));
+        stream
+    }
+
+    async fn account_snapshot(
+        &self,
+        assets: &[AssetNameExchange],
+        instruments: &[InstrumentNameExchange],
+    ) -> Result<UnindexedAccountSnapshot, UnindexedClientError> {
+        let (planned, att, called) = {
+            let mut g = self.sh.lock().unwrap();
+            let o = g.begin(false);
+            g.line("Snap");
+            (o.is_some(), g.att, g.now())
+        };
+        if !planned {
+            return std::future::pending().await;
+        }
+        let mut snapshot = self.inner.account_snapshot(assets, instruments).await?;
+        // the attempt number, on every balance and every listed order (as the scripted exchange does)
+        let stamp = dec(att as i64);
+        for b in snapshot.balances.iter_mut() {
+            b.balance = Balance { total: stamp, free: stamp };
+        }
+        for i in snapshot.instruments.iter_mut() {
+            for o in i.orders.iter_mut() {
+                o.price = stamp;
+            }
+        }
+        let mut g = self.sh.lock().unwrap();
+        g.snap_done = true;
+        g.doing = "up";
+        let now = g.now();
+        if let Some(p) = g.played.last_mut() {
+            p.1 = now - called;
+            p.2 = now;
+        }
+        Ok(snapshot)
+    }
+
+    async fn cancel_order(&self, request: OrderRequestCancel<ExchangeId, &InstrumentNameExchange>) -> UnindexedOrderResponseCancel {
+        self.inner.cancel_order(request).await
+    }
+
+    async fn open_order(
+        &self,
+        request: OrderRequestOpen<ExchangeId, &InstrumentNameExchange>,
+    ) -> Order<ExchangeId, InstrumentNameExchange, Result<Open, UnindexedOrderError>> {
+        self.inner.open_order(request).await
+    }
+
+    async fn fetch_balances(&self) -> Result<Vec<AssetBalance<AssetNameExchange>>, UnindexedClientError> {
+        self.inner.fetch_balances().await
+    }
+
+    async fn fetch_open_orders(&self) -> Result<Vec<Order<ExchangeId, InstrumentNameExchange, Open>>, UnindexedClientError> {
+        self.inner.fetch_open_orders().await
+    }
+
+    async fn fetch_trades(&self, t: DateTime<Utc>) -> Result<Vec<Trade<QuoteAsset, InstrumentNameExchange>>, UnindexedClientError> {
+        self.inner.fetch_trades(t).await
+    }
+}
+
+async fn run_mock(scn: &Scenario, out: &mut Out, st: &mut Stats) {
+    let plan = scn.mock.clone().expect("mock scenario");
+    st.scenarios += 1;
+    st.mock_scenarios += 1;
+    *st.by_client.entry("mock (real MockExecution)".into()).or_default() += 1;
+    *st.by_exchange.entry(scn.x.clone()).or_default() += 1;
+    let w = world();
+    let own = exchange_of(&scn.x);
+    let other = if own == XK { XB } else { XK };
+    let tab = table(&w, own);
+    let map = generate_execution_instrument_map(&w, own).expect("the exchange is part of the world");
+    let t0 = Instant::now();
+    // (the plan's connections as placeholders: `begin` only needs to know how many attempts are answered)
+    let placeholder = Outcome { r: "ok".into(), ls: 0, ln: 0, ed: 0, body: vec![] };
+    let sh: Sh = Arc::new(Mutex::new(Shared {
+        t0,
+        script: vec![placeholder; plan.conns.len()],
+        reqs: vec![],
+        own,
+        other,
+        att: 0,
+        sub_done: false,
+        snap_done: false,
+        failed: false,
+        tx: None,
+        feeders: vec![],
+        doing: "initialising",
+        log: vec![],
+        played: vec![],
+    }));
+    let line = |l: Value| sh.lock().unwrap().log.push(l);
+    let now = || sh.lock().unwrap().now();
+
+    // the mocked exchange, wired as ExecutionBuilder::add_mock / init_mock_exchange do - with a small capacity
+    let (request_tx, request_rx) = tokio::sync::mpsc::unbounded_channel();
+    let (event_tx, event_rx) = tokio::sync::broadcast::channel::<UnindexedAccountEvent>(plan.cap);
+    let open_order = |name: &str| Order {
+        key: OrderKey { exchange: own, instrument: InstrumentNameExchange::new(name), strategy: StrategyId::new("u"), cid: ClientOrderId::new(format!("s-{name}")) },
+        side: Side::Buy,
+        price: dec(1),
+        quantity: dec(1),
+        kind: OrderKind::Limit,
+        time_in_force: TimeInForce::GoodUntilCancelled { post_only: false },
+        state: UnindexedOrderState::Active(ActiveOrderState::Open(Open { id: OrderId::new(format!("so-{name}")), time_exchange: time(1), filled_quantity: dec(0) })),
+    };
+    let initial = UnindexedAccountSnapshot {
+        exchange: own,
+        balances: tab["assets"].as_object().unwrap().keys()
+            .map(|a| AssetBalance { asset: AssetNameExchange::new(a.as_str()), balance: Balance { total: dec(1000), free: dec(1000) }, time_exchange: time(1) }).collect(),
+        instruments: tab["insts"].as_object().unwrap().keys()
+            .map(|n| InstrumentAccountSnapshot { instrument: InstrumentNameExchange::new(n.as_str()), orders: vec![open_order(n)] }).collect(),
+    };
+    let exchange = tokio::spawn(
+        MockExchange::new(MockExecutionConfig::new(own, initial, plan.lat, rust_decimal::Decimal::ZERO), request_rx, event_tx.clone(), Default::default()).run(),
+    );
+    let inner = <MockExecution<Clock> as ExecutionClient>::new(MockExecutionClientConfig::new(own, mock_clock as Clock, request_tx, event_rx));
+    let client = LoggedMock { sh: sh.clone(), inner };
+
+    // what the exchange actually played, per connection: (body with gaps, silence before the overrun)
+    let mut played: Vec<(Vec<Elem>, u64)> = plan.conns.iter().map(|_| (vec![], 0)).collect();
+    let (req_tx, req_rx) = mpsc_unbounded::<ExecutionRequest>();
+    let policy = ReconnectionBackoffPolicy { backoff_ms_initial: scn.pol.0, backoff_multiplier: scn.pol.1, backoff_ms_max: scn.pol.2 };
+    let built = AssertUnwindSafe(ExecutionManager::init(
+        req_rx.into_stream(),
+        Duration::from_millis(scn.t),
+        Arc::new(client),
+        AccountEventIndexer::new(Arc::new(map)),
+        policy,
+    ))
+    .catch_unwind()
+    .await;
+    match built {
+        Err(_) => {
+            st.anomalies += 1;
+            line(stop("panic", now(), "ExecutionManager::init panicked"));
+        }
+        Ok(Err(e)) => {
+            st.nostream += 1;
+            line(stop("nostream", now(), &format!("{e:?}")));
+        }
+        Ok(Ok((manager, stream))) => {
+            let mut stream = Box::pin(stream);
+            let mut handle = tokio::spawn(manager.run());
+            let mut over = false; // the observation is over (stream ended / panicked / runaway)
+            let mut items = 0usize;
+            // consume whatever the merged stream has to say, until it is silent for DRAIN_MS
+            macro_rules! drain {
+                () => {
+                    while !over {
+                        match tokio::time::timeout(Duration::from_millis(DRAIN_MS), AssertUnwindSafe(stream.next()).catch_unwind()).await {
+                            Err(_) => break,
+                            Ok(Err(_)) => {
+                                st.anomalies += 1;
+                                line(stop("panic", now(), "the merged account stream panicked when polled"));
+                                over = true;
+                            }
+                            Ok(Ok(None)) => {
+                                line(stop("ended", now(), ""));
+                                over = true;
+                            }
+                            Ok(Ok(Some(event))) => {
+                                let l = emit_line(now(), &event);
+                                match l["k"].as_str().unwrap_or("") {
+                                    "Snapshot" => st.snapshots += 1,
+                                    "Update" => st.updates += 1,
+                                    "Notice" => st.notices += 1,
+                                    _ => st.anomalies += 1,
+                                }
+                                line(l);
+                                items += 1;
+                                if items > RUNAWAY {
+                                    st.anomalies += 1;
+                                    line(stop("runaway", now(), "far more items than the exchange published"));
+                                    over = true;
+                                }
+                            }
+                        }
+                    }
+                };
+            }
+            let publish = |e: &Elem| {
+                let ev = sh.lock().unwrap().elem_event(e);
+                let _ = event_tx.send(ev);
+            };
+            for (j, conn) in plan.conns.iter().enumerate() {
+                drain!(); // the snapshot of this connection (after the notice of the previous one)
+                let snapped = sh.lock().unwrap().played.get(j).map(|p| p.2);
+                let mut last = snapped.unwrap_or(u64::MAX).min(now());
+                let note = |e: &Elem, at: u64, last: &mut u64, body: &mut Vec<Elem>| {
+                    let mut e = e.clone();
+                    e.early = false;
+                    e.d = at.saturating_sub(*last);
+                    *last = at.max(*last);
+                    body.push(e);
+                };
+                for (g, e) in &conn.pre {
+                    tokio::time::sleep(Duration::from_millis(*g)).await;
+                    publish(e);
+                    note(e, now(), &mut last, &mut played[j].0);
+                    drain!();
+                }
+                if !conn.fit.is_empty() {
+                    // a burst that fits the capacity while the consumer is busy: delivered late, complete, in order
+                    tokio::time::sleep(Duration::from_millis(conn.fit_gap)).await;
+                    for e in &conn.fit {
+                        publish(e);
+                        note(e, now(), &mut last, &mut played[j].0);
+                    }
+                    st.mock_fit_bursts += 1;
+                    tokio::time::sleep(Duration::from_millis(plan.busy)).await;
+                    drain!();
+                }
+                // the overrun: more notifications than the capacity while the merged stream is not polled
+                tokio::time::sleep(Duration::from_millis(conn.over_gap)).await;
+                for n in 0..conn.over {
+                    publish(&Elem { k: "bal".into(), nm: "usdt".into(), xok: true, early: false, d: 0, v: 1000 * (j as i64 + 1) + n as i64 });
+                }
+                played[j].1 = now().saturating_sub(last);
+                st.mock_overruns += 1;
+                st.mock_lost_published += conn.over;
+                tokio::time::sleep(Duration::from_millis(plan.busy)).await;
+            }
+            drain!(); // the notice of the last connection; the next account_stream() pends
+            if !over {
+                line(stop("quiet", now(), ""));
+                line(blank("Shutdown", now()));
+                let _ = req_tx.tx.send(ExecutionRequest::Shutdown);
+                match tokio::time::timeout(Duration::from_millis(IDLE_MS), AssertUnwindSafe(stream.next()).catch_unwind()).await {
+                    Ok(Ok(None)) => line(blank("Ended", now())),
+                    Ok(Ok(Some(event))) => line(emit_line(now(), &event)),
+                    Ok(Err(_)) => line(stop("panic", now(), "the merged account stream panicked when polled")),
+                    Err(_) => line(stop("noend", now(), "the merged stream did not end after the manager was shut down")),
+                }
+            }
+            match tokio::time::timeout(Duration::from_millis(1000), &mut handle).await {
+                Ok(Ok(())) => {}
+                Ok(Err(e)) => {
+                    st.anomalies += 1;
+                    line(stop("mgrpanic", now(), &format!("ExecutionManager::run panicked: {e}")));
+                }
+                Err(_) => handle.abort(),
+            }
+        }
+    }
+    exchange.abort();
+    // the scenario in AccountLink's terms, as the exchange actually played it
+    let mut g = sh.lock().unwrap();
+    let script: Vec<Outcome> = played.iter().enumerate().map(|(j, (body, ed))| {
+        let (ls, ln, _) = g.played.get(j).copied().unwrap_or((0, plan.lat, 0));
+        Outcome { r: "ok".into(), ls, ln, ed: *ed, body: body.clone() }
+    }).collect();
+    st.attempts += g.att.min(script.len());
+    st.connections += g.att.min(script.len());
+    let known = |e: &Elem| e.xok && (if e.k == "bal" { tab["assets"].get(&e.nm).is_some() } else { tab["insts"].get(&e.nm).is_some() });
+    st.unindexable_scripted += script.iter().flat_map(|o| o.body.iter()).filter(|e| !known(e)).count();
+    let mut reset = scenario_json_base(&Scenario { mock: None, script, cc: "mock".into(), reqs: vec![], ..scn.clone() });
+    for (k, v) in blank("Reset", 0).as_object().unwrap() {
+        reset[k] = v.clone();
+    }
+    reset["mock"] = mock_json(&plan);
+    reset["tab"] = tab.clone();
+    reset["rin"] = Value::from("BTCUSDT");
+    out.line(&reset);
+    for l in g.log.drain(..) {
+        out.line(&l);
+    }
+}
+
+fn random_mock_scenario(rng: &mut impl Rng) -> Scenario {
+    let x = pick(rng, &["kraken", "binance_spot"]).to_string();
+    let cap = pick(rng, &[4usize, 4, 8]);
+    let mut v = 0i64;
+    let mut elem = |rng: &mut dyn rand::RngCore| {
+        v += 1;
+        let k = ["bal", "bal", "ord", "trade"][(rng.next_u32() % 4) as usize];
+        let nm = if k == "bal" { ["btc", "usdt", "usdt", "eth", "sol"][(rng.next_u32() % 5) as usize] } else { ["BTCUSDT", "BTCUSDT", "ETHUSDT", "SOLUSDT"][(rng.next_u32() % 4) as usize] };
+        Elem { k: k.into(), nm: nm.into(), xok: rng.next_u32() % 100 < 90, early: false, d: 0, v }
+    };
+    let conns = (0..rng.random_range(1..=3usize)).map(|_| {
+        let pre = (0..rng.random_range(0..=3usize)).map(|_| (pick(rng, &[0u64, 1, 5, 40]), elem(rng))).collect();
+        let n_fit = pick(rng, &[0usize, 0, 1, cap - 1, cap]);
+        let fit = (0..n_fit).map(|_| elem(rng)).collect();
+        MockConn { pre, fit, fit_gap: pick(rng, &[0u64, 2, 9]), over: cap + 1 + rng.random_range(0..6usize), over_gap: pick(rng, &[0u64, 1, 7]) }
+    }).collect();
+    let pol = pick(rng, &[(100u64, 3u8, 500u64), (10, 2, 15), (125, 2, 60000)]);
+    Scenario {
+        mock: Some(MockPlan { cap, lat: pick(rng, &[0u64, 0, 3]), busy: pick(rng, &[0u64, 10, 50]), conns }),
+        x, cc: "mock".into(), pol, t: 50, script: vec![], reqs: vec![],
+    }
+}
+
+// ------------------------------------------------------------------------------------------------
 // seeded random scenarios
 // ------------------------------------------------------------------------------------------------
 fn pick<T: Clone>(rng: &mut impl Rng, xs: &[T]) -> T {
@@ -904,7 +1332,7 @@ fn random_scenario(rng: &mut impl Rng) -> Scenario {
         at: rng.random_range(0..=span + 20),
         d: match rng.random_range(0..100) { 0..20 => None, 20..35 => Some(0), _ => Some(rng.random_range(1..t)) },
     }).collect();
-    Scenario { x, cc, pol, t, script, reqs }
+    Scenario { mock: None, x, cc, pol, t, script, reqs }
 }
 
 #[tokio::main(flavor = "current_thread", start_paused = true)]
@@ -928,6 +1356,12 @@ async fn main() {
                 scn_out.line(&scenario_json(&scn));
                 run_scenario(&scn, &mut out, &mut st).await;
             }
+            // the overrun family over the real MockExecution client / MockExchange task
+            for _ in 0..args.usize("mock", 0) {
+                let scn = random_mock_scenario(&mut rng);
+                scn_out.line(&scenario_json(&scn));
+                run_scenario(&scn, &mut out, &mut st).await;
+            }
             scn_out.finish();
         }
         _ => usage("commands: run | random"),
@@ -945,6 +1379,8 @@ async fn main() {
                "init_returned_error": st.nostream, "of_which_config_refused": st.config_refused,
                "requests": st.requests, "responses": st.responses, "timeout_failures": st.timeouts,
                "responses_while_link": st.resp_while, "by_client_constant": st.by_client, "by_exchange": st.by_exchange,
+               "overrun_scenarios_real_mock_client": st.mock_scenarios, "overruns": st.mock_overruns,
+               "bursts_within_capacity": st.mock_fit_bursts, "notifications_published_into_overruns": st.mock_lost_published,
                "anomalies": st.anomalies})
     );
 }
